@@ -261,12 +261,18 @@ def empty_container_cases(tier):
     e_s = P.S(())
     e_o = ("O", (), 1, (((), ()),))
     e_r = P.R(())
+    # an outline with a heading-only examples block beside a block that has rows (before / after it)
+    e_o2a = P.O2((((), ()), ((), (("pass",), ("pass",)))))
+    e_o2b = P.O2((((), (("pass",), ("pass",))), ((), ())))
     full = [P.S(("pass", "pass")), P.O((("pass",), ("pass",)))]
     feats = []
     for e in (e_s, e_o):
         feats.append(P.F((e, full[0], full[1])))
         feats.append(P.F((full[0], e, full[1]), bg=("pass",)))
         feats.append(P.F((full[0], P.R((e, full[0], full[1]), bg=("pass",)))))
+    for e in (e_o2a, e_o2b):
+        feats.append(P.F((e, full[0])))
+        feats.append(P.F((full[0], P.R((e,), bg=("pass",)))))
     feats.append(P.F((full[0], e_r, P.R((full[0], full[1])))))
     feats.append(P.F((full[0], P.R((e_s,)), P.R((e_o, full[0])))))
     for f in feats:
